@@ -80,6 +80,10 @@ Check (C06_channel_seek_beyond_end : forall F, valid_file F -> forall ops c,
        delivered (chan_pcm F c) (map (abs_c F c) post) = [] /\
        Forall (fun x => polls x = true -> eos x = true) (map (abs_c F c) post))).
 
+Check (C07_channel_error_hides_frame : forall F r e,
+  f_rev F = Repaired -> snd (chan_fill_buf F r) = OErr e ->
+  pcm_frames (d_buf (cr_dec (fst (chan_fill_buf F r)))) <= cr_consumed (fst (chan_fill_buf F r))).
+
 (* the contract and the history-level notions the statements rest on, pinned too *)
 Check (eq_refl : @exactly_once = fun A (data : list A) (atr : list (entry A)) =>
   forall pre e post, atr = pre ++ e :: post ->
